@@ -15,6 +15,15 @@ CHECKS = {
         note="Trusted: CPython semantics mirrored by the rope proxies (cross-checked on sampled paths against the real library), z3, the "
              "40-line reference TLV8 codec in harness/refs.py. TLV.to_string stubbed.",
         design="DESIGN.md section 5 C15"),
+    "C05": dict(
+        text="The real SecureHomeKitProtocol.data_received is executed symbolically on streams of F frames whose plaintext lengths "
+             "(0..1024) and all cut positions are solver variables, so one run covers every segmentation and every frame-size "
+             "choice within the bound (quick F<=2,R<=3; thorough up to F=4/R=4); z3 discharges 'delivered == sent, in order, once'. "
+             "send_bytes is checked for every payload length against a reference accessory. Forged frames/length prefixes under an "
+             "ideal AEAD. Bounded: longer streams are outside.",
+        note="Trusted: ideal AEAD model (a forged frame is rejected by the real primitive), rope proxies (model-based differential "
+             "against the real library with real ChaCha20-Poly1305 on sampled paths), z3. HTTP layer stubbed (C07).",
+        design="DESIGN.md section 5 C05"),
 }
 
 NOT_APPLICABLE = {
